@@ -17,21 +17,21 @@ macro_rules! sinst {
     };
 }
 
-sinst!(ptq_remap_s0, mp::map_unmap_remap, [1, 2, 3, 4], 0, W, U | B9);
-sinst!(ptq_remap_s3, mp::map_unmap_remap, [1, 2, 3, 4], 3, W, U | B9);
-sinst!(ptq_remap_s5, mp::map_unmap_remap, [1, 2, 3, 4], 5, W, U | B9);
-sinst!(ptq_hugeshadow_s0, mp::huge_shadows_small, [1, 2, 3, 4], 0, W | U, W);
-sinst!(ptq_hugeshadow_s3, mp::huge_shadows_small, [1, 2, 3, 4], 3, W | U, W);
-sinst!(ptq_update_s1, mp::map_update_unmap, [1, 2, 3, 4], 1, W, W | U);
-sinst!(ptq_update_s5, mp::map_update_unmap, [1, 2, 3, 4], 5, W, W | U);
+sinst!(ptq_remap_s0, mp::map_unmap_remap, [1, 258, 259, 260], 0, W, U | B9);
+sinst!(ptq_remap_s3, mp::map_unmap_remap, [1, 258, 259, 260], 3, W, U | B9);
+sinst!(ptq_remap_s5, mp::map_unmap_remap, [1, 258, 259, 260], 5, W, U | B9);
+sinst!(ptq_hugeshadow_s0, mp::huge_shadows_small, [1, 258, 259, 260], 0, W | U, W);
+sinst!(ptq_hugeshadow_s3, mp::huge_shadows_small, [1, 258, 259, 260], 3, W | U, W);
+sinst!(ptq_update_s1, mp::map_update_unmap, [1, 258, 259, 260], 1, W, W | U);
+sinst!(ptq_update_s5, mp::map_update_unmap, [1, 258, 259, 260], 5, W, W | U);
 sinst!(ptqt_remap_top_s1, mp::map_unmap_remap, [511, 511, 511, 511], 1, W | U, W);
-sinst!(ptq_remap_s0_nr, rc::map_unmap_remap, [1, 2, 3, 4], 0, W, U | B9);
-sinst!(ptq_remap_s3_nr, rc::map_unmap_remap, [1, 2, 3, 4], 3, W, U | B9);
-sinst!(ptq_remap_s5_nr, rc::map_unmap_remap, [1, 2, 3, 4], 5, W, U | B9);
-sinst!(ptq_hugeshadow_s0_nr, rc::huge_shadows_small, [1, 2, 3, 4], 0, W | U, W);
-sinst!(ptq_hugeshadow_s3_nr, rc::huge_shadows_small, [1, 2, 3, 4], 3, W | U, W);
-sinst!(ptq_update_s1_nr, rc::map_update_unmap, [1, 2, 3, 4], 1, W, W | U);
-sinst!(ptq_update_s5_nr, rc::map_update_unmap, [1, 2, 3, 4], 5, W, W | U);
+sinst!(ptq_remap_s0_nr, rc::map_unmap_remap, [1, 258, 259, 260], 0, W, U | B9);
+sinst!(ptq_remap_s3_nr, rc::map_unmap_remap, [1, 258, 259, 260], 3, W, U | B9);
+sinst!(ptq_remap_s5_nr, rc::map_unmap_remap, [1, 258, 259, 260], 5, W, U | B9);
+sinst!(ptq_hugeshadow_s0_nr, rc::huge_shadows_small, [1, 258, 259, 260], 0, W | U, W);
+sinst!(ptq_hugeshadow_s3_nr, rc::huge_shadows_small, [1, 258, 259, 260], 3, W | U, W);
+sinst!(ptq_update_s1_nr, rc::map_update_unmap, [1, 258, 259, 260], 1, W, W | U);
+sinst!(ptq_update_s5_nr, rc::map_update_unmap, [1, 258, 259, 260], 5, W, W | U);
 sinst!(ptqt_remap_top_s1_nr, rc::map_unmap_remap, [511, 511, 511, 511], 1, W | U, W);
-sinst!(ptqt_cleanup_s0, map_unmap_cleanup, [1, 2, 3, 4], 0, W, W | U);
-sinst!(ptqt_cleanup_s5, map_unmap_cleanup, [1, 2, 3, 4], 5, W, W | U);
+sinst!(ptqt_cleanup_s0, map_unmap_cleanup, [1, 258, 259, 260], 0, W, W | U);
+sinst!(ptqt_cleanup_s5, map_unmap_cleanup, [1, 258, 259, 260], 5, W, W | U);
